@@ -675,8 +675,15 @@ fn gen_ext_task(rng: &mut Rng, origin: String) -> ExtTask {
                     1 => fol::Formula::QuantifiedFormula { quantification: fol::Quantification { quantifier: fol::Quantifier::Exists, variables: vec![fol::Variable { name: "N".into(), sort: fol::Sort::Integer }] }, formula: Box::new(fol::Formula::BinaryFormula { connective: fol::BinaryConnective::Conjunction, lhs: Box::new(atom1("in1", nvar.clone().into())), rhs: Box::new(atom1("out1", nvar.clone().into())) }) },
                     _ => fol::Formula::BinaryFormula { connective: fol::BinaryConnective::Implication, lhs: Box::new(atom1("in1", nvar.clone().into())), rhs: Box::new(atom1("out1", fol::GeneralTerm::Variable("Y".into()))) },
                 };
+                // sometimes the other variable has the same NAME as the induction variable (general N next to N$i)
+                let same_name = g.rng.chance(1, 4);
+                let body = if same_name { rename_var(body, "Y", "N") } else { body };
+                let other = if same_name { "N" } else { "Y" };
                 let mut vars = vec![nvar];
-                if body.free_variables().iter().any(|v| v.name == "Y") && !(sloppy && g.rng.chance(1, 3)) { vars.push(fol::Variable { name: "Y".into(), sort: fol::Sort::General }); }
+                if body.free_variables().iter().any(|v| v.name == other && v.sort == fol::Sort::General) && !(sloppy && g.rng.chance(1, 3)) {
+                    let ov = fol::Variable { name: other.into(), sort: fol::Sort::General };
+                    if g.rng.chance(1, 2) { vars.insert(0, ov) } else { vars.push(ov) }
+                }
                 po.push(fol::AnnotatedFormula { role: fol::Role::InductiveLemma, direction, name, formula: fol::Formula::QuantifiedFormula { quantification: fol::Quantification { quantifier: fol::Quantifier::Forall, variables: vars }, formula: Box::new(fol::Formula::BinaryFormula { connective: fol::BinaryConnective::Implication, lhs: Box::new(ante), rhs: Box::new(body) }) } });
             }
             _ => {
@@ -689,6 +696,10 @@ fn gen_ext_task(rng: &mut Rng, origin: String) -> ExtTask {
         }
     }
     ExtTask { origin, spec, program, ug, po: fol::Specification { formulas: po } }
+}
+
+fn rename_var(f: fol::Formula, from: &str, to: &str) -> fol::Formula {
+    f.substitute(fol::Variable { name: from.into(), sort: fol::Sort::General }, fol::GeneralTerm::Variable(to.into()))
 }
 
 /// map the generic predicate names of the formula generator onto the task vocabulary
